@@ -99,10 +99,33 @@ def oracle_case(pcode: str, n_ticks: int, tags_plan: list) -> Failure | None:
         run.close()
 
 
+TEMPLATES = [
+    # a Watch/Alarm inside Outer whose body opens a block, firing while the main flow is inside Inner
+    "Block: Outer\n    Watch: T0 > 0\n        Block: W\n            Mark: w\n            End block\n    Block: Inner\n        Wait: 1s\n        Mark: i\n        End block\n    Mark: o\n    End block\nMark: z",
+    "Block: Outer\n    Alarm: T0 > 0\n        Block: W\n            Mark: w\n            End block\n    Block: Inner\n        Wait: 1s\n        End block\n    Wait: 0.5s\n    End block\nMark: z",
+    # three levels, End block at the innermost
+    "Block: A\n    Block: B\n        Block: C\n            Mark: c\n            End block\n        Mark: b\n        End block\n    Mark: a\n    End block\nMark: z",
+    # End blocks from the innermost of three, and from a watch
+    "Block: A\n    Block: B\n        Block: C\n            Mark: c\n            End blocks\n        Mark: b\n    Mark: a\nMark: z",
+    "Block: A\n    Watch: T0 > 0\n        End block\n    Block: B\n        Wait: 1s\n        End block\n    Wait: 1s\n    End block\nMark: z",
+    "Watch: T0 > 0\n    Block: W\n        Mark: w\n        End block\nBlock: A\n    Wait: 1s\n    End block\nMark: z",
+]
+
+
+def template_cases() -> list[dict]:
+    out = []
+    for t in TEMPLATES:
+        for k in range(0, 22, 1):
+            plan = [[] for _ in range(45)]
+            plan[k] = [("T0", 1)]
+            out.append({"pcode": t, "ticks": 45, "plan": plan})
+    return out
+
+
 def gen_oracle_cases(ctx: Check, n: int):
     from harness.gen_pcode import gen_program
     rng = ctx.rng
-    out = []
+    out = template_cases()
     for _ in range(n):
         # no Alarm-around-Watch nests here: see level_note
         pcode, _ = gen_program(rng, features={"mark", "block", "watch", "wait", "cmd", "thr"}, max_lines=12)
